@@ -297,6 +297,11 @@ func ruleCtxArmIn(c *Ctx, r *R, onlyRel string) {
 			}
 			if cal := staticCallee(&call.Call); cal != nil && c.inModule(cal) && cal.Parent() == nil {
 				if why := blocksWithoutCtx(cal); why != "" {
+					if alreadyClosedAt(c, call, origin(cal)) {
+						nc++
+						r.discharged(name+"|blocking-call:"+fname(cal)+"#"+itoa(nc), call.Pos(), "the callee only receives from a close-only channel that this path has already received from: it cannot block")
+						return
+					}
 					nc++
 					r.violated(name+"|blocking-call:"+fname(cal)+"#"+itoa(nc), call.Pos(), "call of "+funcShort(cal)+", which contains "+why+" and takes no context, in a function that takes a context: it cannot be interrupted when the context ends")
 				}
@@ -1345,6 +1350,91 @@ func isErrSlotPtr(v ssa.Value, d int) bool {
 			}
 		}
 		return true
+	}
+	return false
+}
+
+
+// alreadyClosedAt: every blocking operation of callee is a plain receive from a channel field of its receiver; nothing in the
+// package ever SENDS on that field (it is only closed, so a receive succeeds only once it is closed, and then for ever); and
+// the call, made on the same receiver, is dominated by the body of a select arm (or follows a plain receive) on that very
+// field: the channel is closed by then and the callee cannot block.
+func alreadyClosedAt(c *Ctx, call *ssa.Call, callee *ssa.Function) bool {
+	if len(callee.Params) == 0 || len(call.Call.Args) == 0 {
+		return false
+	}
+	field := ""
+	for _, op := range chanOpsOf(callee) {
+		if !op.blocking {
+			continue
+		}
+		if op.kind != "recv" || len(op.arms) != 1 {
+			return false
+		}
+		ld, ok := stripChange(op.arms[0].ch).(*ssa.UnOp)
+		if !ok || ld.Op != token.MUL {
+			return false
+		}
+		fa, ok := ld.X.(*ssa.FieldAddr)
+		if !ok || resolveVal(fa.X) != ssa.Value(callee.Params[0]) {
+			return false
+		}
+		f := fieldName(fa.X.Type(), fa.Field)
+		if field != "" && f != field {
+			return false
+		}
+		field = f
+	}
+	if field == "" {
+		return false
+	}
+	recvT := derefType(callee.Params[0].Type())
+	sameField := func(ch ssa.Value) (ssa.Value, bool) {
+		for _, lf := range valueLeaves(stripChange(ch), nil, 0) {
+			ld, ok := stripChange(lf.v).(*ssa.UnOp)
+			if !ok || ld.Op != token.MUL {
+				return nil, false
+			}
+			fa, ok := ld.X.(*ssa.FieldAddr)
+			if !ok || fieldName(fa.X.Type(), fa.Field) != field || !types.Identical(origType(derefType(fa.X.Type())), origType(recvT)) {
+				return nil, false
+			}
+			return resolveVal(fa.X), true
+		}
+		return nil, false
+	}
+	// close-only: no send on that field anywhere in the package
+	for _, f := range c.Funcs {
+		if rootFn(f).Pkg != rootFn(callee).Pkg {
+			continue
+		}
+		for _, op := range chanOpsOf(f) {
+			for _, a := range op.arms {
+				if a.send {
+					if _, same := sameField(a.ch); same {
+						return false
+					}
+				}
+			}
+		}
+	}
+	recv := resolveVal(call.Call.Args[0])
+	for _, op := range chanOpsOf(call.Parent()) {
+		for _, a := range op.arms {
+			if a.send {
+				continue
+			}
+			base, same := sameField(a.ch)
+			if !same || base != recv {
+				continue
+			}
+			if a.body != nil && (a.body == call.Block() || a.body.Dominates(call.Block())) {
+				return true
+			}
+			if op.kind == "recv" && op.in.Block().Dominates(call.Block()) && (op.in.Block() != call.Block() || idxIn(op.in) < idxIn(call)) {
+				return true
+			}
+		}
 	}
 	return false
 }
